@@ -127,6 +127,16 @@ CLAIMED = {
         engine="crosshair", design="4/C14",
         note="CrossHair 0.0.110 + z3; values modelled as ints/bools; get_fluid stubbed; 'Not confirmed' is reported as "
              "inconclusive, never as success"),
+    "C17": dict(
+        text="Relabel-only tools (reindex_junctions / _pipes / _elements, create_continuous_*): the real tool is applied to the "
+             "symbolic net and z3 proves Newton systems and all results equal to those of the original through the relabelling, "
+             "for all parameter values (labels / lookups enumerated, incl. pipe labels that coincide with junction labels and "
+             "junction-pipe valves); select_subnet of a complete supplied region is proved to reproduce the region's results. "
+             "Referential integrity after every tool and seeded tool pairs (incl. drop_* and fuse_junctions) by evaluation, "
+             "labelled so.",
+        technique="real tool applied to the symbolic net + two-run equivalence decided by z3; reference sets by evaluation; "
+                  "counterexamples replayed on the real tools and pipeflow",
+        design="4/C17"),
     "C18": dict(
         text="Distances: networkx' Dijkstra (pure Python) is executed by the real calc_distance_to_junction / "
              "calc_minimum_distance_to_junctions / create_nxgraph on nets with symbolic pipe lengths; on every path z3 (LRA) proves "
